@@ -177,6 +177,10 @@ class Integer(Type):
         self.has_extension_marker = has_extension_marker
 
         if minimum == 'MIN' or maximum == 'MAX':
+            if minimum != 'MIN':
+                # Semi-constrained: only the lower bound is PER-visible.
+                self.minimum = minimum
+
             return
 
         self.minimum = minimum
@@ -194,7 +198,11 @@ class Integer(Type):
                 return
 
         if self.number_of_bits is None:
-            encoder.append_unconstrained_whole_number(data)
+            if self.minimum is None:
+                encoder.append_unconstrained_whole_number(data)
+            else:
+                encoder.append_semi_constrained_whole_number(
+                    data - self.minimum)
         else:
             encoder.append_non_negative_binary_integer(data - self.minimum,
                                                        self.number_of_bits)
@@ -205,7 +213,11 @@ class Integer(Type):
                 return decoder.read_unconstrained_whole_number()
 
         if self.number_of_bits is None:
-            return decoder.read_unconstrained_whole_number()
+            if self.minimum is None:
+                return decoder.read_unconstrained_whole_number()
+            else:
+                return (decoder.read_semi_constrained_whole_number()
+                        + self.minimum)
         else:
             value = decoder.read_non_negative_binary_integer(self.number_of_bits)
 
